@@ -91,9 +91,9 @@ def _enum(tier, shard, nshards):
 
 
 PHASES = [
-    HypPhase("spikes_dyadic", _spikes_dyadic, dict(quick=3000, thorough=50000)),
-    HypPhase("spikes_float", _spikes_float, dict(quick=1200, thorough=20000)),
-    HypPhase("adds", _adds, dict(quick=2500, thorough=30000)),
+    HypPhase("spikes_dyadic", _spikes_dyadic, dict(quick=5000, thorough=50000)),
+    HypPhase("spikes_float", _spikes_float, dict(quick=2000, thorough=20000)),
+    HypPhase("adds", _adds, dict(quick=4000, thorough=30000)),
     EnumPhase("grid6", _enum,
               lambda tier: "all ordered pairs of subsets of {0..6} on [0,6] x (MRTS,RI,"
                            "max_tau) in {(0,F,0),(2,T,1),(5,F,.5)}; all 12 spike routines"),
